@@ -9,8 +9,11 @@ SHARDS = 16
 class Op:
     """one builder operation with the shadow's prediction"""
 
-    def __init__(self, name, call, bits, nrefs=0, valid=True):
+    def __init__(self, name, call, bits, nrefs=0, valid=True, may_refuse=False):
         self.name, self.call, self.bits, self.nrefs, self.valid = name, call, bits, nrefs, valid
+        # may_refuse: an argument form the library need not support (an iterable without a length, say): refusing it is fine even when it would fit, accepting
+        # it means storing exactly these bits; when it does not fit it must be refused like everything else
+        self.may_refuse = may_refuse
 
 
 def opkey(op):
@@ -24,8 +27,8 @@ def mk_ops(rng, B, rem_bits, leafs, which=None):
     """operations sized relative to the remaining capacity: fits with room / exactly / one bit too many; and value-range breaks"""
     ops = []
 
-    def add(name, call, bits, nrefs=0, valid=True):
-        ops.append(Op(name, call, bits, nrefs, valid))
+    def add(name, call, bits, nrefs=0, valid=True, may_refuse=False):
+        ops.append(Op(name, call, bits, nrefs, valid, may_refuse))
     for d in (-1, 0, 1):
         n = rem_bits + d
         if n < 0:
@@ -41,6 +44,11 @@ def mk_ops(rng, B, rem_bits, leafs, which=None):
             add('store_bits', lambda b, s=s: b.store_bits(s), s)
             ba = bitarray(s)
             add('store_bits(bitarray)', lambda b, ba=ba: b.store_bits(ba), s)
+            # bits given as other iterables: with a length (list, tuple) and without one (generator, map, iterator, filter) - the capacity check cannot lean on len()
+            ints = [int(c) for c in s]
+            for fname, mk in (('list', lambda ints=ints: list(ints)), ('tuple', lambda ints=ints: tuple(ints)), ('generator', lambda ints=ints: (x for x in ints)),
+                              ('map', lambda s=s: map(int, s)), ('iterator', lambda ints=ints: iter(ints)), ('filter', lambda ints=ints: filter(lambda x: True, ints))):
+                add(f'store_bits({fname})', lambda b, mk=mk: b.store_bits(mk()), s, may_refuse=True)
         if n % 8 == 0 and n // 8 <= 130:
             by = rng.randbytes(n // 8)
             add('store_bytes', lambda b, by=by: b.store_bytes(by), rc.bytes_to_bits(by))
@@ -175,7 +183,10 @@ def apply(R, B, fill_bits, fill_refs, op, leafs, W):
     R.cover('fill_levels', fill_bits)
     W = dict(W, op=op.name, fill_bits=fill_bits, fill_refs=fill_refs)
     if fits:
-        if st == 'exc':
+        if st == 'exc' and op.may_refuse:
+            R.count(f'unsupported-argument-form:{op.name}')
+            R.check(b.bits.to01() == fb and len(b.refs) == fill_refs, f'refused-store-left-bits-{opkey(op)}', f'{op.name} was refused ({e!r}) but left {len(b.bits) - fill_bits} bits behind', W)
+        elif st == 'exc':
             R.exc(e)
             R.violation(f'refused-fitting-{opkey(op)}', f'{op.name} at fill {fill_bits} bits/{fill_refs} refs fits ({len(exp_bits)} bits, {add_refs} refs) but raised {e!r}', W)
         else:
@@ -407,7 +418,9 @@ def random_history(R, B, rng, leafs, n_ops):
         st, e = mon.call(op.call, b)
         W = {'trace': trace[-12:], 'shadow_bits': len(sh_bits), 'shadow_refs': sh_refs}
         if fits:
-            if st == 'exc':
+            if st == 'exc' and op.may_refuse:
+                sh_bits, sh_refs = b.bits.to01(), len(b.refs)
+            elif st == 'exc':
                 R.violation(f'refused-fitting-{opkey(op)}', f'history: {op.name} fits (shadow {len(sh_bits)}b/{sh_refs}r + {len(op.bits)}b/{op.nrefs}r) but raised {e!r}', W)
                 sh_bits, sh_refs = b.bits.to01(), len(b.refs)
             else:
